@@ -2,7 +2,7 @@
    Oracles (inputs): numcanon raw = Some (isfloat, str(value)) for NUMBER lexemes;
                      holo_ok raw  = parse_holographic_pattern(raw) succeeds.
    Fuel bounds the call depth (loops are recursion); POut marks inputs outside the model. *)
-From OV Require Import Base.Strs Lex.Lexer Syn.Ast.
+From OV Require Import Base.Strs Syn.Escape Lex.Lexer Syn.Ast.
 Require Coq.Strings.String.
 Import Coq.Strings.String.StringSyntax.
 Open Scope N_scope.
@@ -434,15 +434,20 @@ Fixpoint comma_at_depth1 (ts : list token) (depth : N) : bool :=
       else comma_at_depth1 r depth
   end.
 
+(* since /repo fix (holographic pattern text): a STRING is written with the emitter's escaping, and no token kind that
+   carries text is dropped (ASSIGN, BLOCK, VERSION, VARIABLE and every operator are written in their canonical spelling);
+   only NEWLINE / INDENT / COMMENT (and kinds that cannot occur inside brackets) contribute nothing *)
 Definition reconstruct_tok (t : token) : str :=
   match tk t, tv t with
   | LIST_START, _ => [c_lbr] | LIST_END, _ => [c_rbr]
-  | STRING, TVText s => c_dq :: s ++ [c_dq]
+  | STRING, TVText s => c_dq :: escape s ++ [c_dq]
   | NUMBER, TVNum raw => raw
   | BOOLEAN, TVBool b => if b then lit "true" else lit "false"
   | NULL, _ => lit "null"
   | CONSTRAINT, _ => [8743] | FLOW, _ => [8594] | SECTION, _ => [167] | COMMA, _ => [c_comma]
-  | IDENTIFIER, TVText s => s
+  | ASSIGN, _ => [c_colon; c_colon] | BLOCK, _ => [c_colon]
+  | TENSION, _ => [8652] | SYNTHESIS, _ => [8853] | CONCAT, _ => [10746] | ALTERNATIVE, _ => [8744] | AT, _ => [64]
+  | IDENTIFIER, TVText s => s | VERSION, TVText s => s | VARIABLE, TVText s => s
   | _, _ => []
   end.
 
